@@ -51,7 +51,8 @@ RULE = (
     "that the codec has), str or bytes, caption <=8 chars, "
     "text <=14 chars (ASCII, double-width, combining, newline, space; only characters representable in the "
     "encoding whose encoded length equals their width in wide mode), width 1..20, wrap space/any/clip, align, "
-    "multiline, allow_tab, mask, initial cursor, op list <=40 (quick) / <=80 (thorough) of printable keys, "
+    "multiline, allow_tab, mask, initial cursor, op list <=40 (quick) / <=80 (thorough; every other list has >= 10 "
+    "elements) of printable keys, "
     "left/right/up/down/home/end, backspace, delete, enter, tab, unrelated keys, button-1 clicks on any cell, "
     "and (one element in eight) a run of 2..4 consecutive up/down keys optionally started by home/end/left/right "
     "or a click in the first or last column, so that the preferred column - 0 and width-1 included - is carried "
@@ -808,7 +809,10 @@ def _ops(typed, max_ops):
     run = st.tuples(anchor, st.lists(st.sampled_from(["up", "down"]).map(lambda k: ["k", k]), min_size=2, max_size=4)).map(
         lambda t: ([t[0]] if t[0] is not None else []) + t[1])
     chunk = st.one_of(*([single.map(lambda o: [o])] * 7 + [run]))
-    return st.lists(chunk, min_size=1, max_size=max_ops).map(lambda cs: [o for c in cs for o in c][:max_ops])
+    # Hypothesis lists of 1..max average about 6 elements; every other history is drawn with at least 10 so that
+    # long histories (state carried over many steps, several clicks per text) are ordinary, not exceptional
+    hist = st.one_of(st.lists(chunk, min_size=1, max_size=max_ops), st.lists(chunk, min_size=10, max_size=max_ops))
+    return hist.map(lambda cs: [o for c in cs for o in c][:max_ops])
 
 
 _listener = st.fixed_dictionaries({
@@ -963,7 +967,7 @@ def _num_classes(case):
 
 def shard(ctx):
     max_ops = ctx.scale(40, 80)
-    ctx.given("edit", edit_cases(max_ops), ctx.scale(500, 10000), nontrivial=_edit_nontrivial, classify=_edit_classes)
+    ctx.given("edit", edit_cases(max_ops), ctx.scale(800, 10000), nontrivial=_edit_nontrivial, classify=_edit_classes)
     if ctx.failure is None:
         ctx.given("numeric", numeric_cases(ctx.scale(30, 60)), ctx.scale(250, 4000), nontrivial=_num_nontrivial,
                   classify=_num_classes)
